@@ -12,7 +12,7 @@ using namespace vf;
 
 static Fields gen(Tape &t) {
   Fields f;
-  LongMode lm(t);
+  LongMode lm(t, true);
   if (lm.on()) f.seti("long", 1);
   GenUri S, B;
   int k = 0;
